@@ -1,23 +1,25 @@
-"""Command numbers of coq/model/Dispatch.v, read from its CMD comments."""
+"""Access to the extracted models. Command numbers are read from the CMD comments of the
+model's Dispatch file (coq/model/Dispatch.v for the default binary, coq/model/Dispatch<Name>.v
+for build/<name>)."""
 import os
 import re
 import vlib
 
-_cmds = None
+_cmds = {}
 
 
-def cmd(name):
-    global _cmds
-    if _cmds is None:
-        src = open(os.path.join(vlib.COQ, "model", "Dispatch.v")).read()
-        _cmds = {m.group(1): int(m.group(2)) for m in re.finditer(r"CMD\s+(\w+)\s*=\s*(\d+)", src)}
-    return str(_cmds[name])
+def cmd(name, exe_name="velaverif"):
+    if exe_name not in _cmds:
+        f = "Dispatch.v" if exe_name == "velaverif" else "Dispatch%s.v" % (exe_name[0].upper() + exe_name[1:])
+        src = open(os.path.join(vlib.COQ, "model", f)).read()
+        _cmds[exe_name] = {m.group(1): int(m.group(2)) for m in re.finditer(r"CMD\s+(\w+)\s*=\s*(\d+)", src)}
+    return str(_cmds[exe_name][name])
 
 
-def run(name, cases, timeout=1800):
+def run(name, cases, timeout=1800, exe_name="velaverif"):
     """cases: list of lists of ints. returns list of lists of ints"""
     lines = [" ".join(str(int(x)) for x in c) for c in cases]
-    out = vlib.run_model(cmd(name), lines, timeout)
+    out = vlib.run_model(cmd(name, exe_name), lines, timeout, exe_name)
     if len(out) != len(cases):
         raise RuntimeError("model %s: %d results for %d cases" % (name, len(out), len(cases)))
     return [[int(t) for t in l.split()] for l in out]
